@@ -23,7 +23,7 @@ func init() {
 			"(3) the short corpus and long streams, whole and cut, through bufio {none,16} x delivery {one call, 1, 13 bytes}; every case records a digest of (output bytes, kind of outcome); the driver joins the per-level tables and requires identical digests; " +
 			"compressed bytes are not compared across levels (match choices may differ): the compressor is covered by every writer-side check running at every level; non-trivial = the case was executed at two or more levels",
 		Assumptions: []string{"levels that the host cannot execute are not compared (named below)", "the compressor half of the statement is established by C01, C09, C10, C12, C14, C19, C20 running at every level"},
-		Quick:       TierSpec{MaxDev: -1, Shards: 4, ShardDepth: 3, BudgetS: 150},
+		Quick:       TierSpec{MaxDev: -1, Shards: 4, ShardDepth: 3, BudgetS: 600},
 		Thorough:    TierSpec{MaxDev: -1, Shards: 8, ShardDepth: 3, BudgetS: 1700},
 		Harness:     c18Harness,
 		Join:        c18Join,
